@@ -19,7 +19,11 @@ META = {
             "sizes, deliveries in both directions and peer EXTENDED_DATA with type codes 0..5, for window/packet "
             "configurations around the threshold classes, from the initial state and from injected non-initial "
             "states on the conservation frontier; in every state: no stuck state; from every new state the fair "
-            "continuation completes and at quiescence sender window + receiver's unacknowledged consumed bytes (<= W//10) == W exactly.",
+            "continuation completes and at quiescence sender window + receiver's unacknowledged consumed bytes (<= W//10) == W exactly. "
+            "Premise check [counter seams]: the BFS steps at whole operations; the threads that touch a credit counter "
+            "(two readers, WINDOW_ADJUST dispatch vs senders, arriving data vs reader) are additionally raced at "
+            "source-line granularity (<=1/2 preemptions, every line of channel.py a scheduling point) and the same "
+            "equation is evaluated after the fair continuation.",
     "note": "ChannelPair: the harness supplies the run loop's three dispatch lines (handler lookup in the real "
             "_channel_handler_table); single direction; sizes by threshold class, not all integers",
     "design_ref": "4/C20",
@@ -206,6 +210,45 @@ def run_two_writers(item, acc):
     acc.count("two_writer_schedules", res.executions)
 
 
+def run_seam(item, acc):
+    """The BFS merges states on the credit counters and steps at whole operations, which is sound as long as
+    every access to the counters is under the channel lock.  That premise is explored here: the threads that
+    touch a counter are raced with every source line of channel.py a scheduling point (scenario bodies shared
+    with C19 part 3), then the fair continuation runs and the same conservation equation is evaluated."""
+    from props import c19
+    from vmc import explore
+    tier, scn, bound, shard = item
+    kind, W, P = scn
+    T = W // 10
+    body = c19.make_seam_body(scn)
+
+    def on_exec(ex):
+        acc.ev()
+        acc.validated += 1
+        acc.transitions += len(ex.points) + 1
+        if ex.outcome != "ok":
+            acc.violation("seam:harness-outcome:%s:%s" % (ex.outcome, type(ex.error).__name__),
+                          {"scn": scn, "err": repr(ex.error)[:300]}, {"seam": scn, "choices": ex.choices})
+            return
+        v, shape, ow, sofar, done = ex.value
+        acc.nt(("seam", scn, ow, sofar, done, len(shape)))
+        if not done:
+            acc.violation("sender-stalls-although-reader-keeps-reading:counter-seam:%s" % kind,
+                          {"scn": scn, "out_window": ow, "unacked_consumed": sofar, "choices": ex.choices},
+                          {"seam": scn, "choices": ex.choices})
+        elif ow + sofar != W or sofar > T:
+            clause = "window-over-credited" if ow + sofar > W else "window-not-credited-back"
+            acc.violation("%s:counter-seam:%s" % (clause, kind),
+                          {"scn": scn, "out_window": ow, "unacked_consumed": sofar, "granted": W, "threshold": T,
+                           "choices": ex.choices}, {"seam": scn, "choices": ex.choices})
+    res = explore.explore(body, bound, "preempt", cap=40000, on_exec=on_exec, sched_kw={"trace_files": c19.TRACE},
+                          shard=shard)
+    acc.states += 1 if shard[0] == 0 else 0
+    acc.count("seam_schedules", res.executions)
+    if res.capped:
+        acc.note("wall cap: seam cap 40000 hit for %r" % (scn,))
+
+
 def main(tier):
     ck = core.Check(PID, tier, "model_checking",
                     "BFS over event histories on a real ChannelPair per (W, P, injected state, ext codes) config; "
@@ -238,6 +281,15 @@ def main(tier):
     tw = [(tier, ("open", call, c25.W + 1, to, "reader", None, True)) for call in ("sendall", "sendall_stderr")
           for to in (None, 2.0)]
     ck.merge(core.pmap(tw, run_two_writers))
+    from props import c19
+    sb = 1 if tier == "quick" else 2
+    seams = []
+    for kind in c19.SEAMS:
+        b = sb if kind.count("+") < 2 or tier == "quick" else sb - 1
+        nsh = 1 if b <= 1 else 8
+        seams += [(tier, (kind, 32768, 32768), b, (k, nsh)) for k in range(nsh)]
+    ck.extra["seam_preemption_bound"] = sb
+    ck.merge(core.pmap(seams, run_seam))
     ck.exhaustive = False
     ck.caps.append("depth-bounded: frontier states left at the depth cap are counted in counters")
     for n in ck.acc.notes:
@@ -248,6 +300,14 @@ def main(tier):
 
 def replay(rec):
     r = rec["replay"]
+    if "seam" in r:
+        from props import c19
+        from vmc import explore
+        ex = explore.replay(c19.make_seam_body(tuple(r["seam"])), r["choices"], "preempt", {"trace_files": c19.TRACE})
+        print(ex.outcome, ex.error, ex.value and ex.value[2:])
+        W = r["seam"][1]
+        bad = ex.outcome != "ok" or not ex.value[4] or ex.value[2] + ex.value[3] != W or ex.value[3] > W // 10
+        return 1 if bad else 0
     if "two_writers" in r:
         from props import c25
         from vmc import explore, sched as S
